@@ -86,6 +86,7 @@ func (d *simDevice) Get(ctx context.Context, r *gnmi.GetRequest) (*gnmi.GetRespo
 func devCovers(t, p string) bool { return c18Covers(c18Split(t), c18Split(p)) }
 
 func (d *simDevice) Set(ctx context.Context, r *gnmi.SetRequest) (*gnmi.SetResponse, error) {
+	d.fuse.Gate("device")
 	d.mu.Lock()
 	defer d.mu.Unlock()
 	req := devReq{}
